@@ -9,7 +9,12 @@ def handle (case impl : List String) : Verdict :=
   if nonFiniteInput s io then bad "non-finite scene" else
   let v := Verdict.ok (sceneTags s io)
   match io.panic with
-  | some msg => (v.withDiff true "implementation panicked").withSpec true "render-panic" s!"render panicked: {msg}"
+  | some msg =>
+    -- the zero vector (0,0,0,0) is not a point of projective space; the model (0/0 = 0) cannot follow the real
+    -- code there (NaN screen coordinates, `partial_cmp().unwrap()` in tri_fill): a class of its own
+    let zeroVert := (clipVerts s io).any fun (p, _) => p.x == 0 && p.y == 0 && p.z == 0 && p.w == 0
+    if zeroVert then (v.addTag "zero-vertex").withSpec true "zero-homogeneous-vertex" s!"render panicked on a scene with a (0,0,0,0) clip-space vertex: {msg}"
+    else (v.withDiff true "implementation panicked").withSpec true "render-panic" s!"render panicked: {msg}"
   | none =>
     let tris := screenTris s io
     let edge := fun px py => edgeMasked (1/50) tris px py
